@@ -24,6 +24,7 @@ import (
 //   R-no-bypass         HTTP transports reach dispatch targets only through the request entry; the
 //                       notification path never touches middleware state
 //   R-result-identity   what the transports wrap into the response is the value the entry returned
+//   R-own-context       the context handed to the dispatcher derives from the request's own context
 func init() { Registry["C15"] = checkC15 }
 
 func checkC15(c *Ctx) {
